@@ -23,7 +23,7 @@ func init() {
 			"non-trivial = the abstract run was error-free, not wholly known, and at least two concrete runs were error-free; distinct by program + abstraction hash",
 		Assumptions: []string{"cty's own operations on unknown values (arithmetic, comparison, conversion, refinement bookkeeping) are trusted; the property concerns how hcl's evaluator combines them", "marks are ignored here (C06)"},
 		Quick:       Plan{Batches: 16, PerBatch: 5000, MinNonTrivial: 10000},
-		Thorough:    Plan{Batches: 64, PerBatch: 30000, MinNonTrivial: 120000},
+		Thorough:    Plan{Batches: 64, PerBatch: 60000, MinNonTrivial: 120000},
 		Case:        c05Case,
 	})
 }
